@@ -877,4 +877,69 @@ def handleSettings (s : SettingsState) (tableCap : Nat) : List (Nat × Nat) → 
 /-- the decoder as a connection in settings state `s` runs it: the bound is sozu's own advertised value -/
 def connDecode (s : SettingsState) (input : Bytes) : Res := decode input s.localS.maxFrameSize
 
+
+/-! ## request-level checks of `handle_headers_frame` / `handle_data_frame` / `handle_priority_frame` -/
+
+/-- `decode_headers_with_budget` (pkawa.rs): header fields `(name length, value
+    length)` in wire order against SETTINGS_MAX_HEADER_LIST_SIZE (each field costs
+    name + value + 32, RFC 9113 §6.5.2) and the field-count cap; the first field
+    that breaks a cap decides. `none`: within budget. (Cookie crumbs are not modelled.) -/
+def headerBudgetGo (maxBytes maxFields : Nat) : Nat → Nat → List (Nat × Nat) → Option StreamOut
+  | _, _, [] => none
+  | bytes, count, (k, v) :: r =>
+    let bytes' := bytes + k + v + Consts.hdrFieldSizeOverhead
+    if bytes' > maxBytes then some (.streamError ENHANCE_YOUR_CALM)
+    else if count + 1 > maxFields then some (.streamError ENHANCE_YOUR_CALM)
+    else headerBudgetGo maxBytes maxFields bytes' (count + 1) r
+
+def headerBudget (maxBytes maxFields : Nat) (fields : List (Nat × Nat)) : Option StreamOut :=
+  headerBudgetGo maxBytes maxFields 0 0 fields
+
+def fieldsSize : List (Nat × Nat) → Nat
+  | [] => 0
+  | (k, v) :: r => k + v + Consts.hdrFieldSizeOverhead + fieldsSize r
+
+/-- RFC 9113 §8.1.1 as `handle_data_frame` enforces it for a request with a
+    declared content-length: `received` content bytes so far, a DATA frame with
+    `len` content bytes and its END_STREAM flag. -/
+def contentLengthStep (declared : Option Nat) (received len : Nat) (endStream : Bool) : Nat × StreamOut :=
+  let total := received + len
+  match declared with
+  | none => (total, .handled)
+  | some e =>
+    if total > e then (total, .streamError PROTOCOL_ERROR)
+    else if endStream && total != e then (total, .streamError PROTOCOL_ERROR)
+    else (total, .handled)
+
+/-- a body as a list of DATA frames `(content length, END_STREAM)`: the first answer that is not `handled`,
+    or `handled` with the total -/
+def contentLengthRun (declared : Option Nat) : Nat → List (Nat × Bool) → Nat × StreamOut
+  | received, [] => (received, .handled)
+  | received, (len, es) :: r =>
+    let t := contentLengthStep declared received len es
+    if t.2 = .handled then (if es then t else contentLengthRun declared t.1 r) else t
+
+/-- `handle_priority_frame` + `Prioriser::push_priority_guarded`: a PRIORITY frame
+    for stream `sid` depending on `dep`. `known`: the stream is in the map;
+    `lookahead`: it is idle and at most PRIORITY_IDLE_LOOKAHEAD ids above
+    `last_stream_id`. Anything else is dropped. -/
+def priorityVerdict (known lookahead : Bool) (sid dep : Nat) : StreamOut :=
+  if !(known || lookahead) then .handled
+  else if dep = sid then (if known then .streamError PROTOCOL_ERROR else .connError PROTOCOL_ERROR)
+  else .handled
+
+
+/-! ## header blocks and the connection buffer -/
+
+/-- `handle_continuation_header_state` after the flood check: the fragments of a
+    header block are accumulated in the connection's own buffer (`bufCap` bytes,
+    `buffer_size`); a CONTINUATION whose payload does not fit what is left is
+    answered GOAWAY(ENHANCE_YOUR_CALM). (With the default 16 393-byte buffers this
+    precedes the 65 536-byte `max_header_list_size` test on the wire size.) -/
+def continuationStep (bufCap : Nat) (s : Flood) (len : Nat) : Flood × Option Violation :=
+  let r := floodStep s (.continuation len)
+  if r.2.isSome then r
+  else if len > bufCap - s.accHdr then (r.1, some (ENHANCE_YOUR_CALM, s.accHdr + len, bufCap))
+  else r
+
 end Sozu.H2Wire
